@@ -66,14 +66,14 @@ fn positions(l: usize, quick: bool) -> Vec<usize> {
 
 fn run(ctx: &mut Ctx) {
     let quick = ctx.quick();
-    ctx.bound("space", format!("buffer lengths 0..=96 (thorough: 0..=288), 8192-{r}..=8192+{r}, 16384-16..=16384+16; no magic, or first magic at every offset within {p} bytes of the buffer start / of offset 8192 / of the buffer end; stored length word in {{0,8,16,24,L-i-8,L-i-1,L-i,L-i+1,0xFFFFFFFF}}; a second magic {{none, 8 bytes earlier, 5 bytes earlier, 16 bytes later}}; zero filler; buffer 8-aligned, flush against a PROT_NONE guard page when its length is a multiple of 8 and otherwise at most 7 bytes before it, those slack bytes varied between two fills", r = if quick { 40 } else { 136 }, p = if quick { 24 } else { 72 }));
+    ctx.bound("space", format!("buffer lengths 0..=96 (thorough: 0..=288), 8192-{r}..=8192+{r}, 16384-16..=16384+16; no magic, or first magic at every offset within {p} bytes of the buffer start / of offset 8192 / of the buffer end; stored length word in {{0,8,16,24,0x10010,L-i-8,L-i-1,L-i,L-i+1,0xFFFFFFFF}}; a second magic {{none, 8 bytes earlier, 5 bytes earlier, 16 bytes later}}; zero filler; buffer 8-aligned, flush against a PROT_NONE guard page when its length is a multiple of 8 and otherwise at most 7 bytes before it, those slack bytes varied between two fills", r = if quick { 40 } else { 136 }, p = if quick { 24 } else { 72 }));
     let arena = Arena::new(6);
     for l in lens(quick) {
         // case 0: no magic at all
         let mut cases: Vec<(Option<usize>, u32, u8)> = vec![(None, 0, 0)];
         for i in positions(l, quick) {
             let rest = l as i64 - i as i64;
-            let mut stored: Vec<u32> = vec![0, 8, 16, 24, 0xFFFF_FFFF];
+            let mut stored: Vec<u32> = vec![0, 8, 16, 24, 0x0001_0010, 0xFFFF_FFFF];
             for d in [rest - 8, rest - 1, rest, rest + 1] {
                 if d >= 0 && !stored.contains(&(d as u32)) {
                     stored.push(d as u32);
